@@ -120,11 +120,11 @@ def e2e_pipeline(ctx, N, K, S, ir_ready, res):
             else:
                 res["ir_O2"] = open(irs[0]).read() if irs else None
             t0 = time.time()
-            so, se, rc = run_prog(out, timeout=240)
+            so, se, rc = run_prog(out, timeout=240, mem_gib=6)
             if rc == "timeout":
                 # the program synchronises by spinning; on a heavily oversubscribed machine a run can starve: one more try
                 res["t"]["retry" + opt] = True
-                so, se, rc = run_prog(out, timeout=480)
+                so, se, rc = run_prog(out, timeout=480, mem_gib=6)
             res["t"]["run" + opt] = round(time.time() - t0, 1)
             res["runs"][opt] = {"rc": rc, "stderr": se, "stdout": so}
     except HarnessBuildError as e:
